@@ -76,6 +76,10 @@ Clauses(T) ==
        \* structures) or it is one of the generic string/array classes the stub imports
        \cup (IF \A j \in 1..Len(T.obs.scopes) : ToSet(T.obs.scopes[j].bare) \subseteq ToSet(T.obs.scopes[j].inline) \cup {"CharArray", "WcharArray"}
              THEN {} ELSE {"unresolvable-hint"})
+       \* a class declared inside a class body is an inline declared structure; a copy of a top-level type there is a class the
+       \* cstruct object does not provide, and hints naming it do not name the field's actual type (finding F40)
+       \cup (IF \A j \in 1..Len(T.obs.scopes) : ToSet(T.obs.scopes[j].inline) \cap {c.name : c \in ExpectedClasses(T)} = {}
+             THEN {} ELSE {"shadow-class"})
 
 VARIABLE tid
 Init == tid = 1
